@@ -1,4 +1,5 @@
 import PhyloModel.Props.C07
+import PhyloModel.Props.C07Inv
 #print axioms C07.wrf_kf2_definition
 #print axioms C07.split_len_accumulates
 #print axioms C07.missing_length_rejected
@@ -10,3 +11,15 @@ import PhyloModel.Props.C07
 #print axioms C07.rescaling
 #print axioms C07.branch_listing
 #print axioms C07.symmetric
+#print axioms C07.weighted_reorder_self
+#print axioms C07.accumulated_length_order_free
+#print axioms C07.weighted_reorder_invariant
+#print axioms C07.weighted_rename_invariant
+#print axioms C07.rescaling_executable
+#print axioms C07.cs_idx
+#print axioms C07.co_idx
+#print axioms C07.cs_idx'
+#print axioms C07.co_idx'
+#print axioms C07.wrf_cs_co
+#print axioms C07.wrf_cs_co_renamed
+#print axioms C07.weighted_rename_needs_same_leaf_set
